@@ -44,7 +44,12 @@ impl<'t, 'a> IoGen<'t, 'a> {
             }
             3 => num(self.t.pick(1000) as f64 / 8.0),
             4 => {
-                let s = gen_string(self.t);
+                // one in six: a text whose byte length sits on a buffer-size edge (31 .. 8193 bytes)
+                let s = if self.t.chance(1, 6) {
+                    super::values::sized_string(*self.t.choose(super::values::SIZE_EDGES), *self.t.choose(&['x', 'é', '日', '🎸']))
+                } else {
+                    gen_string(self.t)
+                };
                 strlit(&s)
             }
             _ => match self.t.pick(5) {
@@ -177,10 +182,17 @@ impl<'t, 'a> IoGen<'t, 'a> {
         }
         let n = self.t.weighted(&[10, 15, 20, 20, 15, 10, 10]);
         let mut s = String::new();
+        // one input in 250 has a line around 64 / 128 KiB (a single line longer than any line buffer)
+        let huge_at = if self.t.chance(1, 250) { Some(self.t.pick(n.max(1))) } else { None };
         for i in 0..n {
             let line = match self.t.weighted(&[50, 15, 10, 15, 10]) {
+                _ if huge_at == Some(i) => {
+                    let bytes = *self.t.choose(&[65_535usize, 65_536, 65_537, 65_534, 70_000, 131_071, 131_072, 131_073]);
+                    super::values::sized_string(bytes, *self.t.choose(&['x', 'é', '日', '🎸']))
+                }
                 0 => gen_string(self.t),
                 1 => String::new(),
+                2 if self.t.chance(1, 3) => super::values::sized_string(*self.t.choose(super::values::SIZE_EDGES), *self.t.choose(&['x', 'é', '日', '🎸'])),
                 2 => "x".repeat(100 + self.t.pick(200)),
                 3 => self.t.choose(&["ünï çödé", "日本語", "🎸 rock", "tab\there", "  spaced  ", "\"quoted\""]).to_string(),
                 _ => format!("line{}", i),
